@@ -164,13 +164,22 @@ def n_input_parts(spec, n):
 
 
 # ----------------------------------------------------------------------------- the property
-def _pack_and_check(gdf, gcols, ocols, spec, k, p, expected, ref, fails, labels, tag, prepack=None):
+def _pack_and_check(gdf, gcols, ocols, spec, k, p, expected, ref, fails, labels, tag, prepack=None, via_map=False):
     """returns sorted (index, id, row) list of the packed result, or None when the call raised"""
     from spatialpandas.dask import DaskGeoDataFrame
     detail = f'partitioning {tag}={spec} npartitions={k} p={p}'
     ddf = make_ddf(gdf, spec)
     if not isinstance(ddf, DaskGeoDataFrame):
         raise RuntimeError(f'harness: input is {type(ddf)}')
+    alt_refs = []
+    if via_map:
+        # an intermediate map_partitions without meta=: Dask rebuilds the meta (first geometry column active) while the
+        # partitions keep the user's choice. Which column such a frame 'uses' is then ambiguous, but bounds and distances
+        # must come from ONE column: the index must equal the reference of some geometry column for all rows.
+        ddf = ddf.map_partitions(lambda d: d)
+        labels.append('via-map_partitions-without-meta')
+        for g in gcols:
+            alt_refs.append(reference_distances('C09', gdf.set_geometry(g), p))
     try:
         if prepack:
             # the input is itself a packed frame (its index is already called hilbert_distance, computed at another order)
@@ -223,6 +232,10 @@ def _pack_and_check(gdf, gcols, ocols, spec, k, p, expected, ref, fails, labels,
         parts_idx.append([r[0] for r in rows])
     if any(len(x) == 0 for x in parts):
         labels.append('empty-output-partition')
+    for alt in alt_refs:
+        if all(ix == alt.get(i) for ix, i, _ in got):
+            ref = alt
+            break
     compare_rows('C09', 'packed', got, expected, ref, fails, detail)
     check_order('C09', 'packed', parts_idx, fails, detail)
     return sorted(got, key=lambda r: (r[0], r[1]))
@@ -265,8 +278,9 @@ def evaluate(case):
         if not isinstance(spec, dict) and 0 in spec:
             labels.append('empty-input-partition')
         results.append(_pack_and_check(gdf, gcols, ocols, spec, k, p, expected, ref, fails, labels, tag,
-                                       prepack=case.get('prepack') if tag == 'b' else None))
-    if results[0] is not None and results[1] is not None and results[0] != results[1]:
+                                       prepack=case.get('prepack') if tag == 'b' else None,
+                                       via_map=bool(case.get('via_map')) and tag == 'a'))
+    if results[0] is not None and results[1] is not None and results[0] != results[1] and not case.get('via_map'):
         diff = next((x, y) for x, y in zip(results[0] + [None], results[1] + [None]) if x != y)
         fails.append((['C09', 'partitioning-dependence'], f'parts_a={case["parts_a"]} parts_b={case["parts_b"]} k={k} p={p}: first difference {str(diff)[:400]}'))
     returned = sum(1 for r in results if r is not None)
@@ -340,7 +354,7 @@ def _case(draw):
     n = fr['n']
     prepack = [draw(st.sampled_from(range(1, 5))), draw(st.sampled_from(range(1, 13))), draw(st.booleans())] if draw(st.sampled_from(range(5))) == 0 else None
     return {'frame': fr, 'presort': presort, 'parts_a': draw(partitionings(n)), 'parts_b': draw(partitionings(n)),
-            'npartitions': k, 'p': p, 'prepack': prepack}
+            'npartitions': k, 'p': p, 'prepack': prepack, 'via_map': draw(st.sampled_from(range(6))) == 0}
 
 
 def strategy(tier):
